@@ -411,6 +411,11 @@ def gen_curve(rng, n, tier):
                 L.append("%sdbl %s n" % (pfx, raw)); L.append("%stoaff %s" % (pfx, raw))
         # same point, different representatives given to add / eq
         for p in pool:
+            # output aliased to the first operand while the second operand is the SAME group element in another object and another
+            # representative (the doubling detour then reads an operand the routine has already started to overwrite), and its negative
+            L.append("%sadd %s %s a" % (pfx, J(p, "rand"), J(p, "rand"))); L.append("%sadd %s %s a" % (pfx, J(p, "one"), J(p, "rand")))
+            L.append("%sadd %s %s a" % (pfx, J(p, "rand"), J(E.neg(p), "rand")))
+            L.append("%saddm %s %s a" % (pfx, J(p, "rand"), E.aff(p, rng))); L.append("%saddm %s %s a" % (pfx, J(p, "rand"), E.aff(E.neg(p), rng)))
             L.append("%sadd %s %s n" % (pfx, J(p, "rand"), J(p, "rand")))
             L.append("%seq %s %s" % (pfx, J(p, "rand"), J(p, "rand")))
             L.append("%sdbl %s %s" % (pfx, J(p), rng.choice(["n", "a"])))
